@@ -367,6 +367,61 @@ fn invalid() -> BoxedStrategy<Invalid> {
     .boxed()
 }
 
+
+/// Every spelling of a *legal* value in every value position (the grammar accepts nil / empty /
+/// blank / booleans / ranges wherever a value may stand, e.g. as a bracket index): parsing must
+/// return Ok or Err, never panic.
+const LEGAL_VALUES: &[&str] = &["nil", "null", "empty", "blank", "true", "false", "'a'", "\"b\"", "''", "1.5", "-0", "007", "+5", "x", "x.y", "x[0]", "x['k']", "x[y]", "x[nil]", "x[empty].z", "(1..2)", "forloop.index", "-1", "9223372036854775807", "-9223372036854775808"];
+
+fn legal_value_cases() -> Vec<Src> {
+    let mut v = Vec::new();
+    for pos in VALUE_POSITIONS {
+        for lit in LEGAL_VALUES {
+            v.push(Src { src: pos.replace('@', lit) });
+            v.push(Src { src: format!("{{% comment %}}{}{{% endcomment %}}", pos.replace('@', lit)) });
+            v.push(Src { src: format!("{{% if x %}}{}{{% endif %}}", pos.replace('@', lit)) });
+        }
+    }
+    v
+}
+
+/// Regions of a block that are never rendered are still parsed: rejected text there is rejected.
+const UNRENDERED_REGIONS: &[&str] = &[
+    "{% case x %}@{% when 1 %}a{% endcase %}",
+    "{% case x %} @ {% else %}c{% endcase %}",
+    "{% if x %}{% case x %}@{% when 1 %}a{% endcase %}{% endif %}",
+    "{% if false %}@{% endif %}",
+    "{% unless true %}@{% endunless %}",
+    "{% for i in (1..0) %}@{% endfor %}",
+    "{% for i in (1..0) %}{% else %}{% endfor %}@",
+    "{% if true %}a{% else %}@{% endif %}",
+    "{% case 1 %}{% when 1 %}a{% when 2 %}@{% endcase %}",
+    "{% capture c %}@{% endcapture %}",
+    "{% tablerow i in (1..0) %}@{% endtablerow %}",
+    "{% ifchanged %}@{% endifchanged %}",
+];
+
+const REJECTED_BITS: &[(&str, &str)] = &[
+    ("{{ 1 | nosuchfilter }}", "unknown filter"),
+    ("{% nosuchtag %}", "unknown tag"),
+    ("{{ x | upcase: 1 }}", "too many filter arguments"),
+    ("{{ 99999999999999999999 }}", "out-of-range literal"),
+    ("{{ 1. }}", "malformed literal"),
+    ("{{ }}", "empty output"),
+    ("{% endfor %}", "stray end tag"),
+];
+
+fn unrendered_region_cases() -> Vec<Invalid> {
+    let mut v = Vec::new();
+    for r in UNRENDERED_REGIONS {
+        for (b, why) in REJECTED_BITS {
+            v.push(Invalid { src: r.replace('@', b), why: format!("{why} in the unrendered region of {r}") });
+            v.push(Invalid { src: r.replace('@', &format!(" text {b} é ")), why: format!("{why} in the unrendered region of {r}") });
+        }
+    }
+    v
+}
+
 fn invalid_fixed() -> Vec<Invalid> {
     let mut v = Vec::new();
     for (b, why) in BREAKS_MIDDLE {
@@ -412,5 +467,7 @@ pub fn run(ctx: &Ctx) {
     ctx.random("deep_nesting", ctx.pick(5_000, 100_000), deep, total);
     ctx.cases("invalid_fixed", invalid_fixed(), must_err);
     ctx.cases("bad_literal_positions", bad_literal_cases(), must_err);
+    ctx.cases("legal_value_positions", legal_value_cases(), total);
+    ctx.cases("unrendered_regions", unrendered_region_cases(), must_err);
     ctx.random("invalid_generated", ctx.pick(100_000, 600_000), invalid, must_err);
 }
